@@ -46,6 +46,7 @@ import fs  # noqa: E402
 import fs.base  # noqa: E402
 import fs.errors  # noqa: E402
 import fs.glob  # noqa: E402
+import fs.lrucache  # noqa: E402
 import fs.memoryfs  # noqa: E402
 import fs.mountfs  # noqa: E402
 import fs.multifs  # noqa: E402
@@ -67,19 +68,9 @@ MAX_STEPS = 40000
 # known_findings.json / c08_known_local.json yet (exact signature strings, as printed in the evidence under
 # coverage['pending_findings']).  They are looked up through report.known_match first; while a signature is listed
 # here and not yet known it is recorded in the evidence instead of failing the check.
-PENDING_FINDINGS = [
-    # LRUCache.__setitem__ is check-then-act (len(self) >= cache_size ... insert) and __getitem__ is delete-then-
-    # reinsert: two look-ups racing on a cache holding cache_size (or cache_size - 1) entries leave it with
-    # cache_size + 1 entries, and it never shrinks again
-    "fs.lrucache.LRUCache [corrupt:pattern-cache-over-capacity]",
-    # OSFS.scandir / filterdir with a namespace that needs a stat of every entry (details, access, stat, lstat, all):
-    # os.scandir lists the entry, a concurrent remove / move takes it away, dir_entry.stat() fails and scandir raises
-    # ResourceNotFound ABOUT THE DIRECTORY, which exists in every sequential order
-    "OSFS.remove||scandir parent/child",
-    "OSFS.move||scandir parent/child",
-    "OSFS.filterdir||remove parent/child",
-    "OSFS.filterdir||move parent/child",
-]
+PENDING_FINDINGS = []
+# (round 4: "fs.lrucache.LRUCache [corrupt:pattern-cache-over-capacity]" and the OSFS scandir / filterdir || remove / move
+#  parent/child crashes were genuine defects, repaired in /repo (c46bb4e, 49fa85e): violations again if they return)
 
 # modules of the package without shared mutable state: their lines are not yield points
 # at grain "shared" (a switch before one of their lines is equivalent to a switch before
@@ -145,6 +136,19 @@ class _ThreadingShim(object):
 def install_lock_proxies():
     fs.base.threading = _ThreadingShim()
     fs.memoryfs.RLock = PLock
+    # the process-wide pattern caches (fs.lrucache.LRUCache) guard their updates with a lock of their own since
+    # /repo c46bb4e: locks created from now on, and the ones of the caches that exist already (made at import time
+    # of fs.wildcard / fs.glob), are proxies too.  Nothing is assumed: a tree without that lock has nothing to replace.
+    if hasattr(fs.lrucache, "threading"):
+        fs.lrucache.threading = _ThreadingShim()
+    for mod in list(sys.modules.values()):
+        if getattr(mod, "__name__", "").split(".")[0] != "fs":
+            continue
+        for obj in list(vars(mod).values()):
+            if isinstance(obj, fs.lrucache.LRUCache):
+                for attr, val in list(vars(obj).items()):
+                    if type(val) is type(_RealRLock()):
+                        setattr(obj, attr, PLock())
 
 
 install_lock_proxies()
@@ -1355,7 +1359,8 @@ CACHE_PARAMS = dict(bound=1, cap1=100000, cap2=0, random=10, uniform=0, cache2=T
 def case_text(case):
     return "%s %s: %s" % (case["fs"], case["relation"], " || ".join(
         "; ".join("%s(%s)" % (c["tpl"] if "ns" in c else c["m"], ",".join(c["args"])) for c in th)
-        for th in case["threads"]))
+        for th in case["threads"])) + (
+            " [pattern caches %s, look-ups %s]" % (case["cstate"], "/".join(case["croles"])) if "cstate" in case else "")
 
 
 def is_trivial(seq):
